@@ -61,6 +61,7 @@ type PathResult struct {
 	schedPts int
 	nvars    int
 	tableDecisions int
+	choicePoints   int
 }
 
 func (w *Worker) newPath(h *ssa.Function, prefix []int) *Path {
@@ -158,6 +159,7 @@ func (w *Worker) runPath(h *ssa.Function, prefix []int, wantSample bool) (res *P
 		res.stubs = p.stubsHit
 		res.unknown = p.unknown
 		res.tableDecisions = p.nTable
+		res.choicePoints = p.pos
 		res.witnessed = p.witnessed
 		res.nvars = len(p.vars)
 		if p.sched != nil {
@@ -203,6 +205,7 @@ type HarnessStats struct {
 	Steps       int64          `json:"ssa_instructions"`
 	Queries     int            `json:"queries"`
 	TableDecisions int         `json:"decisions_by_domain_tables"`
+	ChoicePoints   int64       `json:"decision_points_on_paths"`
 	Samples     [][]Draw       `json:"-"`
 	MaxVars     int            `json:"symbolic_vars_max"`
 	SchedPoints int            `json:"sched_points_max,omitempty"`
@@ -299,6 +302,7 @@ func (rs *RunState) explore(h *ssa.Function, nworkers int) {
 				st.Steps += int64(res.steps)
 				st.Queries += res.queries
 				st.TableDecisions += res.tableDecisions
+				st.ChoicePoints += int64(res.choicePoints)
 				if res.nvars > st.MaxVars {
 					st.MaxVars = res.nvars
 				}
@@ -906,12 +910,16 @@ func runProperty(prop, tier string) int {
 	if len(samples) == 0 {
 		samples = append(samples, "no path completed")
 	}
+	totalTransitions := rs.sat + rs.unsat + rs.unk
+	for _, st := range hs {
+		totalTransitions += st.TableDecisions + int(st.ChoicePoints)
+	}
 	if totalQueries == 0 {
 		totalQueries = rs.sat + rs.unsat + rs.unk
 	}
 	cov := map[string]interface{}{
 		"states":                        totalPaths,
-		"transitions":                   rs.sat + rs.unsat + rs.unk,
+		"transitions":                   totalTransitions,
 		"traces_validated_against_impl": validated,
 		"samples":                       samples,
 		"harnesses":                     hs,
@@ -930,7 +938,7 @@ func runProperty(prop, tier string) int {
 		"load_s":                        loadS,
 		"bounds":                        boundsOf(prop, tier),
 		"map_iteration_orders":          len(passes),
-		"explanation":                   "symbolic execution of /repo's SSA (go/ssa) by decision-prefix DFS; states = explored paths (equivalence classes of inputs), transitions = SMT queries; each assertion is decided by the solver for all values of the symbolic inputs on the path",
+		"explanation":                   "symbolic execution of /repo's SSA (go/ssa) by decision-prefix DFS; states = explored paths (equivalence classes of inputs); transitions = SMT queries + branch conditions decided from domain tables + decision points (structure choices, schedule choices, solver-decided branches) along the explored paths; each assertion is decided for all values of the symbolic inputs on the path (by the solver, or syntactically when both sides are the same term)",
 	}
 	ev := evidence{PropertyID: prop, Tier: tier, Seed: seed, Level: "model_checking", Coverage: cov,
 		Assumptions: assumptionsOf(prop), WallS: time.Since(t0).Seconds(), Violations: newViolations}
